@@ -32,7 +32,11 @@ type Engine struct {
 	broken    map[string]string // synthesised clause functions that no longer type-check
 	keySorts  *Sorts // only for typeKey computations that must be unit independent
 	dispatch    []*DispatchCheck
+	curSigs     map[string]map[string]*funcSig
+	funcBase    funcBaseline
+	loopBase    map[string][]loopRec
 	panics      map[*ssa.Function]bool
+	tables      map[*ssa.Global][]*ssa.Const
 	renamedBare map[string]string // functions under contract that were renamed: old bare name -> new bare name
 	renamedNew  map[string]string // new funcName -> old funcName (for baseline lookups)
 	renamedKey  map[string]string // the same by funcName: "saml.old" -> "saml.new", "(*saml.T).old" -> "saml.new"
@@ -54,7 +58,7 @@ func newEngine(l *Loaded) *Engine {
 	e := &Engine{L: l, contracts: map[string]*Contract{}, externs: map[string]*ExternContract{}, funcs: map[string]*ssa.Function{},
 		funcIDs: map[*ssa.Function]int{}, modsets: map[*ssa.Function]ModSet{}, modBusy: map[*ssa.Function]bool{}, wrap64: map[*ssa.Function]bool{},
 		keySorts: newSorts(), mapInv: map[string]string{}, accCache: map[string][]accessorImpl{}, typeInv: map[string]string{}, guards: map[string]string{},
-		renamedBare: map[string]string{}, renamedKey: map[string]string{}, renamedNew: map[string]string{}, panics: map[*ssa.Function]bool{}}
+		renamedBare: map[string]string{}, renamedKey: map[string]string{}, renamedNew: map[string]string{}, panics: map[*ssa.Function]bool{}, tables: map[*ssa.Global][]*ssa.Const{}}
 	for _, sp := range l.SSA {
 		if sp == nil {
 			continue
@@ -205,7 +209,7 @@ func (e *Engine) callMods(c *ssa.CallCommon, fr *frame) ModSet {
 		argVals = c.Args
 		switch v := c.Value.(type) {
 		case *ssa.Builtin:
-			if v.Name() == "copy" {
+			if v.Name() == "copy" || (v.Name() == "clear" && isSliceType(c.Args[0].Type())) {
 				ms = ModSet{"PE:0": nil}
 			}
 			if v.Name() == "delete" {
@@ -257,9 +261,17 @@ func (e *Engine) callMods(c *ssa.CallCommon, fr *frame) ModSet {
 	return res
 }
 
+func isSliceType(t types.Type) bool {
+	_, ok := t.Underlying().(*types.Slice)
+	return ok
+}
+
 // calleeModsAt: like calleeMods, but the modelled functions of package slices modify what their predicate modifies
 // (nothing for Contains / Index).
 func (e *Engine) calleeModsAt(fn *ssa.Function, c *ssa.CallCommon) ModSet {
+	if p, n := stdGeneric(fn); (p == "cmp" && n == "Or") || (p == "slices" && n == "Concat") {
+		return nil
+	}
 	switch slicesFunc(fn) {
 	case "Contains", "Index":
 		return nil
@@ -332,7 +344,7 @@ func (e *Engine) modsetOf(fn *ssa.Function) ModSet {
 					argVals = c.Args
 					switch v := c.Value.(type) {
 					case *ssa.Builtin:
-						if v.Name() == "copy" {
+						if v.Name() == "copy" || (v.Name() == "clear" && isSliceType(c.Args[0].Type())) {
 							ms = ModSet{"PE:0": nil}
 						}
 						if v.Name() == "delete" {
